@@ -1,6 +1,7 @@
 package main
 
 import (
+	"github.com/gogpu/naga/ir"
 	"fmt"
 	"os"
 )
@@ -115,3 +116,20 @@ func cmdDumpDiff(c *ctx) {
 }
 
 func init() { commands["dumpdiff"] = cmdDumpDiff }
+
+// reorder FILE: types of the module after 0, 1, 2, 3 applications of ir.ReorderTypes (debugging aid).
+func cmdReorder(c *ctx) {
+	b, _ := os.ReadFile(c.args[0])
+	m, res := frontEnd(string(b))
+	if m == nil {
+		fmt.Println("front end:", res)
+		return
+	}
+	for i := 0; i < 4; i++ {
+		d := dumpModule(m)
+		fmt.Println(i, d[:min(len(d), 700)])
+		ir.ReorderTypes(m)
+	}
+}
+
+func init() { commands["reorder"] = cmdReorder }
